@@ -287,6 +287,11 @@ func runC13(t *testing.T, e *worlds.Env, tier string) (bool, any) {
 			}
 			plan.App = m.App
 			plan.Chunks = e.MakeChunks(ln2, 15*time.Millisecond)
+			if cls == clTerminal && len(plan.Chunks) >= 2 && tp.Prob(1, 3, "long-session") {
+				// a conversation with the terminal handler that outlasts the matching timeout (judged
+				// under C05: once a route has matched, the timeout no longer limits its handlers)
+				plan.Chunks[len(plan.Chunks)-1].Delay = timeout + time.Duration(100+tp.Choose(500, "long-extra-ms"))*time.Millisecond
+			}
 			e.Reg.Add(m)
 			cs := &cstate{class: cls, model: m, ln: tp.Choose(nln, "via-listener")}
 			cs.client = e.StartClient(lns[cs.ln], plan, m)
@@ -469,6 +474,14 @@ func runC13(t *testing.T, e *worlds.Env, tier string) (bool, any) {
 			srvClosed := cs.client.End.Peer().IsClosed()
 			switch cs.class {
 			case clTerminal, clNever, clError, clFull, clTwoStep, clTeeTerm:
+				if cs.class == clTerminal && !closedMid && cs.client.WriteErr == nil && m.WroteAll && !m.Aborted {
+					for _, st := range m.Recorders {
+						if st.Name == "term" && st.Done && st.Err != nil && !st.EOF && !st.Bad {
+							e.S.Fail("C13/terminal-cut", "lw", "conn %d (class %c): the terminal handler's read failed after %d of %d bytes with %q although the client sent everything (last chunk %v after the previous one; matching timeout %v) and closed gracefully",
+								m.ID, cs.class, st.Got, len(m.App)-st.Start, st.Err, cs.client.Plan.Chunks[len(cs.client.Plan.Chunks)-1].Delay, matchTimeout)
+						}
+					}
+				}
 				if cs.accepts > 0 {
 					e.S.Fail("C13/delivered-consumed", "lw", "conn %d (class %c: consumed or rejected by layer4) was delivered to Accept %d times", m.ID, cs.class, cs.accepts)
 				}
